@@ -24,11 +24,18 @@
   disagreement replaces the `S` answer by `spec-render-mismatch <model(render L0 P)> ## <spec(P)>`.
   Programs the canonical layout cannot write (`canonOk`: a string body with a raw quote / line feed,
   `br` without condition, 65,535 words or more) are skipped.
+
+  Third computation (ties the HARNESS renderer to `Spec.render`): for every text of a program the
+  specification accepts, a layout is read off the text (`Driver/Layout.lean`) and validated by
+  evaluating `render L P = text ∧ L.ok P`; then the text provably lies in the range of `Spec.render`
+  and `assemble_image_render` applies to it.  A text outside the range turns the `S` answer into
+  `outside-render-range` (programs that are not `Prog.renderable` are exempt).
 -/
 import Driver.Proto
 import Driver.Asm
 import Lace.Spec.Prog
 import Lace.Spec.Render
+import Driver.Layout
 open Lace Lace.Driver Lace.Asm
 
 namespace Lace.Driver.Enc
@@ -133,6 +140,12 @@ def renderCheck (flag : Bool) (P : Prog) : Option String :=
     if m == s then none else some ("spec-render-mismatch " ++ m ++ " ## " ++ s)
   else none
 
+/-- every text of an accepted, renderable program is `render L P` for a well-formed layout `L` -/
+def rangeCheck (flag : Bool) (P : Prog) (texts : List (List Char)) : Option String :=
+  if P.syntaxOk && P.renderable && (P.image flag).isSome then
+    if texts.all (Lay.inRange P) then none else some "outside-render-range"
+  else none
+
 /-- `P01 stack text₁ text₂|= items…` -/
 def handleP01 (toks : List String) : String :=
   match toks with
@@ -149,7 +162,12 @@ def handleP01 (toks : List String) : String :=
           let m2 := canonOutcome (assemble flag [] t2).1
           if m1 == m2 then m1 else "layout-diff " ++ m1 ++ " ## " ++ m2
       let P : Prog := { items := items }
-      "M " ++ m ++ " ;; S " ++ (match renderCheck flag P with | some e => e | none => specOutcome flag P)
+      let texts := t1 :: (match t2 with | some t => [t] | none => [])
+      "M " ++ m ++ " ;; S " ++
+        (match renderCheck flag P, rangeCheck flag P texts with
+         | some e, _ => e
+         | none, some e => e
+         | none, none => specOutcome flag P)
     | _, _, _, _ => "bad-request"
   | _ => "bad-request"
 
